@@ -31,7 +31,7 @@ From RM Require Import Model.EncTimingSpec Proofs.ControlPointsFacts Proofs.EncT
 From RM Require Import Proofs.Enc2Values Proofs.Enc2Samples Proofs.Enc2Float Proofs.Enc2Timing Proofs.Enc2Slider Proofs.Enc2Examples.
 From RM Require Proofs.Enc2SvReal.
 From RM Require Import Proofs.Enc2SvRT Proofs.Enc2Framing Proofs.Enc2SampleShape.
-From RM Require Import Proofs.Enc3Framing Proofs.Enc3Timing Proofs.Enc3Nodes Proofs.Enc3Objects Proofs.Enc3Chrono Proofs.Enc3Map Proofs.Enc3Example.
+From RM Require Import Proofs.Enc3Framing Proofs.Enc3Timing Proofs.Enc3Nodes Proofs.Enc3Objects Proofs.Enc3Chrono Proofs.Enc3NodeInv Proofs.Enc3Map Proofs.Enc3Example.
 From RM Require Import Proofs.MapLevelFacts.
 From Coq Require Sorting.Sorted.
 From Coq Require Reals.
@@ -1062,6 +1062,25 @@ Theorem C02_hit_object_lines_reread :
 Proof. exact object_lines_reread. Qed.
 Print Assumptions C02_hit_object_lines_reread.
 
+(* two more facts about EVERY decoded map (any input): every node of every slider has a sample list
+   of the decoder's image, and a slider's own sample list holds no file name (its extras field is
+   read banks-only) -- carried through the line parser, the stable sort, the break post-processing
+   and the per-object loop.  They discharge the two image premises of the slider clause of
+   [final_rel]: [final_rel_decoded] is [final_rel] without them; what remains as a premise is "the
+   node holds no file name", i.e. outside class D31. *)
+Theorem C02_decoded_slider_nodes_image :
+  forall dist lines m,
+  Forall no_lf_line lines -> decode_beatmap dist lines = Done m ->
+  Forall nodes_image (hov_hit_objects (bmv_ho m)).
+Proof. exact decoded_nodes_image. Qed.
+Print Assumptions C02_decoded_slider_nodes_image.
+
+Theorem C02_final_rel_of_decoded_objects :
+  forall lm objs out,
+  Forall nodes_image objs -> Forall2 (final_rel lm) objs out -> Forall2 (final_rel_decoded lm) objs out.
+Proof. exact final_rel_strengthen_all. Qed.
+Print Assumptions C02_final_rel_of_decoded_objects.
+
 (* ---------- the top-level statement ---------- *)
 
 (* ONE statement: for every decoded map m (decoded with the real curve model, any libm) outside the
@@ -1074,7 +1093,7 @@ Print Assumptions C02_hit_object_lines_reread.
        [read_back m]                                                                   (T02a),
      - m2 has the timing points of m, and the slider-velocity / kiai / scroll-speed timelines
        agree at every time                                                              (T02d),
-     - the hit objects correspond one to one in [final_rel]                      (T02b / T02e).
+     - the hit objects correspond one to one in [final_rel_decoded]              (T02b / T02e).
    Left out of [final_rel] for sliders: the velocity (a function of data shown equal:
    C02_slider_velocity_round_trip), file names on nodes (class D31: C02_slider_node_file_name_lost). *)
 Theorem C02_round_trip_decoded_map :
@@ -1100,7 +1119,7 @@ Theorem C02_round_trip_decoded_map :
    (forall t, sv_at c2 t = sv_at c0 t) /\
    (forall t, kiai_at c2 t = kiai_at c0 t) /\
    (forall t, scroll_at c2 t = scroll_at c0 t)) /\
-  Forall2 (final_rel lm) (hov_hit_objects (bmv_ho m)) (hov_hit_objects (bmv_ho m2)).
+  Forall2 (final_rel_decoded lm) (hov_hit_objects (bmv_ho m)) (hov_hit_objects (bmv_ho m2)).
 Proof. exact round_trip_decoded_map. Qed.
 Print Assumptions C02_round_trip_decoded_map.
 
@@ -1141,7 +1160,7 @@ Theorem C02_round_trip_chronological :
    (forall t, sv_at c2 t = sv_at c0 t) /\
    (forall t, kiai_at c2 t = kiai_at c0 t) /\
    (forall t, scroll_at c2 t = scroll_at c0 t)) /\
-  Forall2 (final_rel lm) (hov_hit_objects (bmv_ho m)) (hov_hit_objects (bmv_ho m2)).
+  Forall2 (final_rel_decoded lm) (hov_hit_objects (bmv_ho m)) (hov_hit_objects (bmv_ho m2)).
 Proof. exact round_trip_chronological. Qed.
 Print Assumptions C02_round_trip_chronological.
 
@@ -1206,7 +1225,7 @@ Example C02_round_trip_example :
        (forall t, sv_at c2 t = sv_at c0 t) /\
        (forall t, kiai_at c2 t = kiai_at c0 t) /\
        (forall t, scroll_at c2 t = scroll_at c0 t)) /\
-      Forall2 (final_rel lm0) (hov_hit_objects (bmv_ho m)) (hov_hit_objects (bmv_ho m2)).
+      Forall2 (final_rel_decoded lm0) (hov_hit_objects (bmv_ho m)) (hov_hit_objects (bmv_ho m2)).
 Proof. exact all_kinds_round_trip. Qed.
 
 (* ---------- status of the obligations ----------
@@ -1259,14 +1278,13 @@ Proof. exact all_kinds_round_trip. Qed.
      decoder's image and holds no file name (C02_slider_node_samples_round_trip; a file name on a
      node is class D31: C02_slider_node_file_name_lost).  Hypotheses: [slider_ok] (outside D13 / D17 /
      consecutive Catmull / D21 / D30), a computable curve, and "read under the map's mode" (the other
-     order on the original input is class D22).  LEFT OPEN: (1) "every node of every decoded slider
-     satisfies [samples_image] and every decoded slider's own samples hold no file name" are
-     invariants of the decoder that are NOT mechanised (they appear as premises inside [final_rel];
-     C02_round_trip_nodes_example shows them on a decoded slider); (2) the velocity of the re-read
-     slider is not part of [final_rel]: it is a function of data shown equal
-     (C02_slider_velocity_round_trip needs both maps decoded with the same curve function);
-     (3) the combo offset of a slider is shown to survive only next to the new-combo bit (an offset
-     without the bit cannot be produced by the decoder, not mechanised for sliders).
+     order on the original input is class D22).  The image premises of the node clause are FACTS
+     about every decoded map (C02_decoded_slider_nodes_image), discharged in the top-level theorems
+     ([final_rel_decoded]).  LEFT OPEN: (1) the velocity of the re-read slider is not part of
+     [final_rel]: it is a function of data shown equal (C02_slider_velocity_round_trip needs both
+     maps decoded with the same curve function); (2) the combo offset of a slider is shown to survive
+     only next to the new-combo bit (an offset without the bit cannot be produced by the decoder;
+     not mechanised for sliders).
 
    Everything above is also covered by the bit-exact `enc` correspondence (decode + encode model
    against the crate, slider files included) and by the C02 oracle, which compares exactly the
